@@ -318,8 +318,8 @@ func (n *node[T]) checkAmbiguous(pattern string, hasNonString bool) (*node[T], b
 		}
 		s0 := segs[0]
 
-		if seg.IsAmbiguous(s0) {
-			node, hasNonString, err := c.checkAmbiguous(pattern[s0.AmbiguousLen():], true)
+		if l, ok := seg.IsAmbiguousPrefix(s0); ok { // seg 可能是拆分之后的前半段
+			node, hasNonString, err := c.checkAmbiguous(pattern[l:], true)
 			if err != nil {
 				return nil, false, err
 			}
